@@ -652,7 +652,7 @@ async fn directed(inst: &mut Inst, out: &mut Out, which: u64) {
             s_nodes(inst, &mut scn, 0, vec![(Some(0), 2, d(1, 7000))]).await;
             do_compute(inst, &mut scn).await; do_check(inst, &mut scn).await;
         }
-        8 => { // an edge tombstone is replaced by one for the same edge and instant under another source entity
+        8 => { // repaired (de0967d), must pass: an edge tombstone is replaced by one for the same edge and instant under another source entity
             l_create(inst, &mut scn, 1, Some(0), false).await;
             l_create(inst, &mut scn, 1, Some(0), false).await;
             l_addref(inst, &mut scn, 0, 1).await;
